@@ -38,6 +38,12 @@ func init() {
 						}
 					}
 				}
+				// arbitrary bytes in the middle of a construct (what follows them is fixed)
+				for _, t := range []string{"(a,@)=>1", "(@,b)=>1", "(a,@@)=>1", "(a@@)=>1", "(@@)=>1", "f((a,@)=>a)", "x = (a,@) => a", "func(a,@){}", "func f(@){}", "func f(a@){}", "macro(@){}", "macro(a,@){1}",
+					"{a:@}", "{@:1}", "{a:1,@}", "[a,@]", "[@,a]", "f(a,@)", "f(@)", "a[@]", "a[1:@]", "a[@:2]", "a[b=@]", "a[b=1@]", "a[b||1@]", "a[[1@]]", "x[a:=1@]", "if @ {1}", "for @ {1}", "for i=@ {1}", "for i=1@2 {1}",
+					"if a {1} else @", "if a {1} @ {2}", "(@)", "-(@)", "a.@", "a.(@)", "a @ b", "a @@ b", "x = @", "x @ 1", "return @", "quote(@)", "unquote(@)", "len(@)", "print(@,1)", "a++@", "@++", "..@", "a => @", "a => {@}", "=> @", ") => @"} {
+					j(t, mode)
+				}
 				// windows over a few seed programs: one arbitrary byte at every position
 				for _, seedProg := range []string{`func f(a,b){if a<b {return a}; b}`, `m={"k":[1,2.5,"s"]}; m.k[0:1]`, `for i=3 {println(i) /* c */}` + "\n// end"} {
 					for pos := 0; pos < len(seedProg); pos++ {
@@ -55,7 +61,7 @@ func init() {
 		Reach:      []string{"errors reported", "continuation requested", "tree returned"},
 		Bounds: map[string]interface{}{"whole_input": "every byte string of length 0..2 (3 thorough), all 256 values per byte, file and line mode",
 			"contexts": "45 open prefixes (one per parse function and position) followed by 1..2 arbitrary bytes (3 thorough), also with a space before the byte and a token after it",
-			"windows":  "one arbitrary byte substituted at every other position (every position thorough) of 3 seed programs"},
+			"mid_construct": "50 skeletons with 1-2 arbitrary bytes in the middle of a construct (parameter lists, map / array / call / index contents, conditions, after else, operands)", "windows":  "one arbitrary byte substituted at every other position (every position thorough) of 3 seed programs"},
 		Outside: []string{"inputs needing more arbitrary bytes than stated beyond a listed context", "termination is shown per path: a path that needs more than 3 million SSA steps is reported as a non-termination candidate and counts when the native run of the same input does not finish within 20 s"},
 	})
 }
@@ -85,8 +91,15 @@ func c02Templates(tier string) []string {
 			"a "+o1+" b; "+"c "+o1+" d", "a "+o1+" b\n-c", "return a "+o1+" b", "len(a "+o1+" b)", "func(){a "+o1+" b}", "a "+o1+" func(){b}()", "a "+o1+" if b {c} else {d}", "a "+o1+" [b]", "a "+o1+" {b:c}",
 			"{(a "+o1+" b): c}", "{a: (b "+o1+" c)}", "{(a "+o1+" b): (c "+o1+" d), e: f}", "{a: b, (c "+o1+" d): e}", "[(a "+o1+" b)]", "f((a "+o1+" b), c)", "a[(b "+o1+" c)]", "a.(b "+o1+" c)")
 	}
+	// quoted dot keys that spell a keyword or a builtin
+	for _, kw := range []string{"func", "true", "false", "if", "else", "return", "for", "break", "continue", "macro", "quote", "unquote", "len", "first", "rest", "print", "println", "log", "error", "catch", "del", "nil", "k", "k1", "_k", "1k", "a b", ""} {
+		add("m.\""+kw+"\"", "m.\""+kw+"\" = 1", "x = m.\""+kw+"\"(1)", "m.\""+kw+"\" + m.\""+kw+"\"")
+	}
+	// comments where an operand is expected
+	add("f(// c\n)", "x = [1, // c\n]", "if // c\n{ }", "for // c\n{ }", "a. // c", "!(! // c\n)", "func f(){return // c\n}", "if x { a = // c\n1 }", "if x { a + // c\n1 }", "(a = // c\n) * 2",
+		"f(/* c */)", "[/* c */]", "-/* c */a", "return /* c */ a", "a = /* c */ 1", "a + /* c */", "f(a, /* c */)", "{1: /* c */}", "x => // c\n", "x => /* c */ x", "a[// c\n]", "a[/* c */ 1]", "if a { // c\n} else { /* d */ }")
 	// a dot or a number next to a dot or a number
-	add("1. 5", "1 .5", "1; ..", "1; .5", "a. 5", "a. .5", "a. ..", "a.(b.c)", "a.(b(1))", "a.(b[1])", "a.(1+2)", "a.(-1)", "a.b.(c)", "1.5.a", "(1).a", "(1.).a", "a.1.2", "..; 1", ".5; .5", "1; 1", "1.; .1", "a.b; .5")
+	add("1. 5", "1 .5", "1; ..", "1; .5", "a. 5", "a. .5", "a. ..", "a.(b.c)", "a.(b(1))", "a.(b[1])", "a.(1+2)", "a.(-1)", "a.b.(c)", "1.5.a", "(1).a", "(1.).a", "a.1.2", "..; 1", ".5; .5", "1; 1", "1.; .1", "a.b; .5", "a. ..++", "(1). ..--", "a. ..++\nb", "a.b++", "a.b--\n-c")
 	for _, p := range rtPrefix {
 		for _, q := range rtPrefix {
 			add(p+q+"a", p+"("+q+"a)", p+" "+q+"a")
@@ -129,7 +142,7 @@ func c02Templates(tier string) []string {
 	}
 	// comments at the edges of every kind of block, with and without a following statement
 	blocks := []string{"if a {%}", "if a {b} else {%}", "for a {%}", "func f() {%}", "g = func() {%}", "h = () => {%}", "if a {%} else {b}", "m = macro(x) {%}"}
-	bodies := []string{"c /* k */", "/* k */", "c // k\n", "c /* k */\n", "\nc /* k */ ", "/* k */ c", "\n/* k */\nc\n", "c\n/* k */", "c\n// k\n", "// k\nc", "c /* k */ /* l */"}
+	bodies := []string{"c /* k */", "/* k */", "c // k\n", "c /* k */\n", "\nc /* k */ ", "/* k */ c", "\n/* k */\nc\n", "c\n/* k */", "c\n// k\n", "// k\nc", "c /* k */ /* l */", "if c {d} /* k */", "/* k */ if c {d}", "if c {d}\n// k\n", "for c {d} /* k */", "return /* k */", "return c // k\n"}
 	tails := []string{"", "\nd", "; d", "\n/* t */\nd", " /* t */\nd", " // t\nd"}
 	for _, bl := range blocks {
 		for _, bd := range bodies {
@@ -179,6 +192,20 @@ func init() {
 							what = "fixpoint"
 						}
 						jobs = append(jobs, Job{Prop: id, Pkg: "parser", Func: "VerifRoundTrip", Args: []string{t, mode, what, c02Family[t]}})
+					}
+				}
+				// string contents go through strconv.Quote and back through the lexer: with the printed form of a symbolic
+				// string kept opaque (atoms) those paths are inconclusive, so a few skeletons run with Quote executed byte by byte
+				for _, t := range []string{"s = \"@\"", "a.\"@\"", "a.\"@@\"", "a.\"@@\" = 1", "x = m.\"@@@\"(1)", "[\"@\", \"@\"]", "{\"@\": \"@\"}"} {
+					if tier != "thorough" && strings.Count(t, "@") > 1 {
+						continue
+					}
+					for _, mode := range []string{"normal", "compact"} {
+						what := "roundtrip"
+						if id == "C03" {
+							what = "fixpoint"
+						}
+						jobs = append(jobs, Job{Prop: id, Pkg: "parser", Func: "VerifRoundTrip", Args: []string{t, mode, what, ""}, NoAtoms: true, MaxDec: 3000})
 					}
 				}
 				if id == "C03" {
